@@ -396,6 +396,18 @@ def l86():
         seen = True
     else:
         seen = SxBool(bit(bits, 32 - core.concrete(d, cap=40), 32))
+    if bool(symbool('damaged_copy_first')):
+        # a copy of the datagram whose body was damaged on the way (same clear-text header, ciphertext replaced) arrives
+        # first: it is not "received" - the window names only datagrams that were accepted
+        from sx import rope as _rope
+        junk, jl = _rope.blob('junk', 0, None)
+        assume(jl == _rope.sx_len(raw) - 20)
+        bad = raw[:20] + junk
+        w0 = (rx.bitfield_pkt.current_seqnum, rx.bitfield_pkt.bits)
+        okb = rx._recv_datagram(conn.PacketHeader.from_bytes(True, bad), bad)
+        check(okb is not True, 'a damaged copy is not accepted')
+        check(And(rx.bitfield_pkt.current_seqnum == w0[0], rx.bitfield_pkt.bits == w0[1]),
+              'a datagram that was not accepted is not recorded in the window (acks name only received datagrams)')
     ok = rx._recv_datagram(hdr, raw)
     check(core.Iff(ok is True, Not(seen)), 'a genuine datagram inside the window is accepted exactly when it was not received before')
     if ok is True:
@@ -429,6 +441,18 @@ def replay_l86(cfg, m):
         return False, 'window state not reached through the API'
     x = int(c.SeqNum(cur) + (-d))
     seen = x in seqs
+    note = ''
+    if m.get('damaged_copy_first'):
+        tx.seq_sending = c.SeqNum(x) - 1
+        tx.send(b'm')
+        raw = tx._encode_packet(tx._build_packet_impl(now[0], False, 0.1))
+        bad = raw[:20] + bytes(b ^ 0x5a for b in raw[20:])
+        w0 = (int(rx.bitfield_pkt.current_seqnum), rx.bitfield_pkt.bits)
+        okb = rx._recv_datagram(c.PacketHeader.from_bytes(True, bad), bad)
+        moved = (int(rx.bitfield_pkt.current_seqnum), rx.bitfield_pkt.bits) != w0
+        ok = rx._recv_datagram(c.PacketHeader.from_bytes(True, raw), raw)
+        return okb is True or moved or (ok is True) != (not seen), 'cur=%d bits=%08x d=%d: damaged copy first: accepted=%s window moved=%s; genuine accepted=%s, received before=%s' % (
+            cur, bits, d, okb, moved, ok, seen)
     ok = ship(x)
     return (ok is True) != (not seen), 'cur=%d bits=%08x d=%d: accepted=%s, received before=%s' % (cur, bits, d, ok, seen)
 
